@@ -40,13 +40,13 @@ theorem permuteChannels2_labels {v : Vol} {p : List Int} {w : VStep} {a b : Nat}
     · left
       refine ⟨rfl, ?_, ?_, ?_⟩
       · intro j
-        simp [findIdx, findIdx.go, List.range, List.range.loop]
+        simp [permChan, findIdx, findIdx.go, List.range, List.range.loop]
       · simp [hc]
       · simp [hs]
     · right
       refine ⟨rfl, ?_, ?_, ?_, ?_⟩
       · intro j
-        simp [findIdx, findIdx.go, List.range, List.range.loop]
+        simp [permChan, findIdx, findIdx.go, List.range, List.range.loop]
       · simp [hc]
       · simp [hs]
       · simp only [labels, hc]
